@@ -29,6 +29,8 @@ DEMO_PKGS=$(for d in $DEMOS; do echo "./$(dirname $d)/"; done | sort -u)
 DEMO_WITH=n/a; DEMO_WITHOUT=n/a
 TAGS=""
 for d in $DEMOS; do grep -q '^//go:build verif' "$d" && TAGS="-tags verif"; done
+# demonstrations of data races only fail under the race detector
+if [ -f MUTANT.md ] && grep -q -- 'go test -race' MUTANT.md; then TAGS="$TAGS -race"; export CGO_ENABLED=1; fi
 if [ -n "$DEMOS" ]; then
   timeout 300 go test $TAGS -vet=off -count=1 $DEMO_PKGS > "$OUT/demo_with_change.log" 2>&1 && DEMO_WITH=pass || DEMO_WITH=FAIL
   # (no git stash: refs/stash is shared by all worktrees of a repository)
